@@ -125,13 +125,21 @@ Definition is_timeout_response (c : tcase) (cs : cause) : bool :=
 
 (* the response a handler gets when it talks to the real writer directly (no timeout guard):
    net/http semantics -- status and headers are those of the first commit *)
+Definition is_commit (a : action) : bool :=
+  match a with WriteHeader c => negb (is_info c) | Write _ => true | _ => false end.
 Fixpoint until_commit (acts : list action) : list action :=
   match acts with
   | [] => []
-  | WriteHeader _ :: _ | Write _ :: _ => []
-  | a :: r => a :: until_commit r
+  | a :: r => if is_commit a then [] else a :: until_commit r
   end.
-Definition is_commit (a : action) : bool := match a with WriteHeader _ | Write _ => true | _ => false end.
+(* status committed on a net/http writer: the first non-informational WriteHeader, or 200 by the first Write *)
+Fixpoint commit_status_direct (acts : list action) : option Z :=
+  match acts with
+  | [] => None
+  | WriteHeader c :: r => if is_info c then commit_status_direct r else Some c
+  | Write _ :: _ => Some statusOK
+  | _ :: r => commit_status_direct r
+  end.
 (* the part of the script that runs, and whether it ended in a panic: without the buffering writer an
    WriteHeader outside [100,999] only panics while nothing is committed (afterwards net/http ignores it) *)
 Fixpoint direct_eff (committed : bool) (acts : list action) : list action * bool :=
@@ -145,12 +153,16 @@ Fixpoint direct_eff (committed : bool) (acts : list action) : list action * bool
 Definition direct_response (recover : bool) (rh0 : hdrs) (acts : list action) : option response :=
   let (e, p) := direct_eff false acts in
   if p && negb recover then None
-  else Some (mkresp (match commit_status e with
+  else Some (mkresp (match commit_status_direct e with
                      | Some c => c
                      | None => if p then statusInternalServerError else statusOK
                      end)
                     (fold_left hdr_op (until_commit e) rh0)
                     (spec_body e)).
+(* the informational responses the client is sent before the final one *)
+Definition direct_infos (acts : list action) : list Z :=
+  flat_map (fun a => match a with WriteHeader c => if is_info c then [c] else [] | _ => [] end)
+           (until_commit (fst (direct_eff false acts))).
 
 Definition spec_ok_t (c : tcase) : bool :=
   if maxbytes_rejects (t_maxbytes c) (t_clen c)
@@ -381,7 +393,9 @@ Record ecase := mkec {
   eo_resp : response;           (* what the http client received *)
   eo_trace : list outcome;
   eo_answered : bool;           (* the client got a well-formed response at all *)
-  eo_prompt : bool              (* ... while the handler was still parked *)
+  eo_prompt : bool;             (* ... while the handler was still parked *)
+  eo_info : list Z;             (* informational (1xx) responses the client received before the final one *)
+  e_ref : option (response * list Z)   (* what a plain net/http server delivered for RecoverHandler(the bare handler) *)
 }.
 Definition e_deadline (c : ecase) : Z := effective_timeout (e_global c) (e_route c).
 Definition e_overrun (c : ecase) : bool := (0 <? e_hold c) && (0 <? e_deadline c) && (e_deadline c <? e_hold c).
@@ -395,18 +409,33 @@ Definition e_to_t (c : ecase) : tcase :=
 Definition e_cut_taken (c : ecase) : bool :=
   e_overrun c && negb (has_panic (firstn (e_k c) (e_acts c))) && Nat.leb (e_k c) (List.length (e_acts c)).
 
+Definition lz_eqb := list_eqb Z.eqb.
 Definition model_ok_e (c : ecase) : bool :=
   eo_answered c && Bool.eqb (eo_prompt c) (e_cut_taken c) &&
   if e_deadline c =? 0
   then (* no timeout guard in the chain: the handler talks to the real writer; compare what a client reads off it *)
     let '(w, tr, p) := direct_run true (mkrw [] []) (e_acts c) [] in
-    negb p && resp_eqb (client_view w) (eo_resp c) && list_eqb outcome_eqb tr (eo_trace c)
-  else model_ok_t (e_to_t c).
+    negb p && resp_eqb (client_view w) (eo_resp c) && lz_eqb (client_infos w) (eo_info c) &&
+    list_eqb outcome_eqb tr (eo_trace c)
+  else lz_eqb [] (eo_info c) && model_ok_t (e_to_t c).
 Definition spec_ok_e (c : ecase) : bool :=
   eo_answered c &&
   (* bounded by the deadline that applies: an overrunning handler is answered while it is still parked *)
   (if e_cut_taken c then eo_prompt c else true) &&
-  spec_ok_t (e_to_t c).
+  spec_ok_t (e_to_t c) &&
+  (if e_deadline c =? 0
+   then (* exactly what net/http delivers for the bare handler: informational responses, final status, headers, body *)
+     lz_eqb (eo_info c) (direct_infos (e_acts c)) &&
+     match e_ref c with
+     | Some (r, infos) => resp_eqb (eo_resp c) r && lz_eqb (eo_info c) infos
+     | None => true
+     end
+   else (* behind the timeout guard: same status and bytes as the bare RecoverHandler(handler) -- in particular the 500
+           of a panic that no middleware inside may swallow *)
+     match e_ref c with
+     | Some (r, _) => (r_status (eo_resp c) =? r_status r) && lnat_eqb (r_body (eo_resp c)) (r_body r)
+     | None => true
+     end).
 
 (* A unary call through a real started rpc server built by rpc.NewServer(ServerConfig{Timeout = s_timeout ms}); the
    scripted handler ignores its context and stays parked for s_hold ms (0: returns at once).  Crash is built in. *)
@@ -430,12 +459,74 @@ Definition model_ok_s (c : scase) : bool :=
   else negb (so_hung c) && rres_eqb (on_wire (rpc_server_direct (s_handler c))) (so_res c).
 Definition spec_ok_s (c : scase) : bool := (if s_overrun c then so_prompt c else true) && spec_ok_r (s_to_r c).
 
+(* ------------------------------------------------------------------ application-wide httpx error handlers *)
+(* a scripted handler may also report an error through httpx.Error / httpx.ErrorCtx; what that does to its writer
+   is Model.error_calls of the installed handler *)
+Inductive gaction := GPrim (a : action) | GError (ctx : bool).
+Record gcase := mkgc {
+  g_conf : gconf; g_recover : bool; g_rh0 : hdrs; g_acts : list gaction; g_fire : fire_mode;
+  go_events : list revent; go_resp : response;
+  go_trace : list outcome;       (* one entry per scripted action *)
+  go_panicked : bool
+}.
+Definition expand (g : gconf) (a : gaction) : list action :=
+  match a with GPrim p => [p] | GError ctx => error_calls g ctx end.
+Definition g_script (c : gcase) : list action := flat_map (expand (g_conf c)) (g_acts c).
+(* the driver's cut points count scripted actions *)
+Definition g_fire' (c : gcase) : fire_mode :=
+  match g_fire c with
+  | FCut k cs => FCut (List.length (flat_map (expand (g_conf c)) (firstn k (g_acts c)))) cs
+  | f => f
+  end.
+Fixpoint regroup (g : gconf) (gs : list gaction) (tr : list outcome) : list outcome :=
+  match gs, tr with
+  | [], _ | _, [] => []
+  | GPrim _ :: r, o :: t => o :: regroup g r t
+  | GError ctx :: r, _ =>
+      let n := List.length (error_calls g ctx) in
+      (if existsb is_opanic (firstn n tr) then OPanic else OOk) :: regroup g r (skipn n tr)
+  end.
+Definition fired_cause (f : fire_mode) : cause := match f with FCut _ c | FBoth c => c | FNone => CTimeout end.
+
+Definition model_ok_g (c : gcase) : bool :=
+  existsb (fun s =>
+             terminal s &&
+             obs_matches (go_events c) (go_trace c) (go_panicked c)
+                         (match st_sel s with
+                          | Some ArmFired => timeout_arm_events (g_conf c) (fired_cause (g_fire c)) (g_rh0 c)
+                          | _ => rw_log (st_rw s)
+                          end)
+                         (regroup (g_conf c) (g_acts c) (st_trace s))
+                         (match st_sel s with Some ArmPanic => true | _ => false end))
+          (forced (g_recover c) (g_rh0 c) (g_script c) (g_fire' c)).
+
+(* the timeout reply that must come: 499/503 + reason unless a ctx error handler is installed, whose reply it then is *)
+Definition timeout_reply (g : gconf) (cs : cause) (rh0 : hdrs) : response :=
+  match g with
+  | GCtx code b => mkresp code rh0 (match b with GBNil => [] | GBErr => biz_err | GBJson => biz_json end)
+  | _ => timeout_response cs rh0
+  end.
+Definition g_to_t (c : gcase) : tcase :=
+  mktc (g_recover c) BNone 0 (-1) (g_rh0 c) (g_script c) (g_fire' c) (go_events c) (go_resp c) [] (go_panicked c).
+Definition spec_ok_g (c : gcase) : bool :=
+  let t := g_to_t c in
+  let timeout_ok cs := one_response t (timeout_reply (g_conf c) cs (g_rh0 c)) in
+  match t_fire t with
+  | FNone => is_handler_response t
+  | FCut k cs =>
+      if has_panic (firstn k (t_acts t)) || Nat.ltb (List.length (t_acts t)) k then is_handler_response t
+      else timeout_ok cs
+  | FBoth cs => is_handler_response t || timeout_ok cs
+  end.
+
 (* ------------------------------------------------------------------ the case type vcheck evaluates *)
 Inductive case := CaseT (c : tcase) | CaseC (c : ccase) | CaseR (c : rcase) | CaseM (c : mcase) | CaseRM (c : rmcase)
-                | CaseE (c : ecase) | CaseS (c : scase).
+                | CaseE (c : ecase) | CaseS (c : scase) | CaseG (c : gcase).
 Definition model_ok (c : case) : bool :=
   match c with CaseT t => model_ok_t t | CaseC k => model_ok_c k | CaseR r => model_ok_r r
-               | CaseM m => model_ok_m m | CaseRM m => model_ok_rm m | CaseE e => model_ok_e e | CaseS x => model_ok_s x end.
+               | CaseM m => model_ok_m m | CaseRM m => model_ok_rm m | CaseE e => model_ok_e e | CaseS x => model_ok_s x
+               | CaseG g => model_ok_g g end.
 Definition spec_ok (c : case) : bool :=
   match c with CaseT t => spec_ok_t t | CaseC k => spec_ok_c k | CaseR r => spec_ok_r r
-               | CaseM m => spec_ok_m m | CaseRM m => spec_ok_rm m | CaseE e => spec_ok_e e | CaseS x => spec_ok_s x end.
+               | CaseM m => spec_ok_m m | CaseRM m => spec_ok_rm m | CaseE e => spec_ok_e e | CaseS x => spec_ok_s x
+               | CaseG g => spec_ok_g g end.
